@@ -7,7 +7,8 @@ From PP Require Import Base Tables.
 Open Scope N_scope.
 
 (* ---- _optimize_char_class: normalise, sort by start, merge overlapping/adjacent ---- *)
-Definition norm_range (r : N * N) : N * N := let '(s, e) := r in if e <? s then (e, s) else (s, e).
+(* a range written the wrong way round is empty and is dropped *)
+Definition nonempty_range (r : N * N) : bool := fst r <=? snd r.
 
 Fixpoint insert_range (r : N * N) (l : list (N * N)) : list (N * N) :=
   match l with
@@ -27,7 +28,7 @@ Fixpoint merge_acc (acc : list (N * N)) (l : list (N * N)) : list (N * N) :=
       | [] => merge_acc [(s, e)] l'
       end
   end.
-Definition merge_ranges (l : list (N * N)) : list (N * N) := merge_acc [] (sort_ranges (map norm_range l)).
+Definition merge_ranges (l : list (N * N)) : list (N * N) := merge_acc [] (sort_ranges (filter nonempty_range l)).
 
 Definition optimize_char_class (singles : list N) (ranges : list (N * N)) : list N * list (N * N) :=
   let merged := merge_ranges ranges in
@@ -36,8 +37,8 @@ Definition optimize_char_class (singles : list N) (ranges : list (N * N)) : list
 Definition class_mem (cls : list N * list (N * N)) (c : N) : bool :=
   memN c (fst cls) || in_ranges c (snd cls).
 
-(* membership in a range written either way round *)
-Definition in_range_sym (c : N) (r : N * N) : bool := in_ranges c [norm_range r].
+(* membership in one range (empty when written the wrong way round) *)
+Definition in_range_sym (c : N) (r : N * N) : bool := in_ranges c [r].
 
 (* ---- case-insensitive literals over ASCII ---- *)
 Definition ascii_variants (c : N) : list N :=
